@@ -201,6 +201,8 @@ def check(prog, ctx, only_c04=False):
     elementwise(prog, ctx, E, wrappers)
     delegation(prog, ctx, E, wrappers)
     domain_dependency(prog, ctx, E)
+    from .C19 import sub_list
+    sub_list(prog, ctx, E)
 
 
 # ----------------------------------------------------------------------------- element-wise guards (C10.e)
